@@ -315,7 +315,7 @@ def judge_along_arrow(drv, out, label, quantity, text, a, b, phi_a, phi_b, i_ab,
     fails, _ = text_oracle(drv, kind, quantity, text, complex(want), opts, w)
     # findings of the number format itself are reported by the adapter path; here only the direction matters
     fails = [f for f in fails if f.split(':')[-1] not in FORMAT_FINDINGS]
-    if fails and c18.region(want.real if isinstance(want, complex) else want, opts['precision']) == 'rounds_up_to_one':
+    if fails and _regions(complex(want), opts, kind) == 'rounds_up_to_one':
         fails = []
     if fails:
         neg_ok, _ = text_oracle(drv, kind, quantity, text, complex(-want), opts, w)
@@ -425,7 +425,7 @@ def check_arrows(ctx, out, g):
                 continue
             fails, _ = text_oracle(drv, kind, 'potential', text, want, opts, w)
             fails = [f for f in fails if f.split(':')[-1] not in FORMAT_FINDINGS]
-            if fails and c18.region(want.real, opts['precision']) != 'rounds_up_to_one':
+            if fails and _regions(complex(want), opts, kind) != 'rounds_up_to_one':
                 out.spec_fail(dict(op='arrow', quantity='potential', kind=kind, symptom='+'.join(sorted(set(f.split(':')[-1] for f in fails))),
                                    node=('ground' if nname == '0' else 'label_node' if nname == 'n1' else 'node')),
                               f'{kind} potential at {nname!r}: {text!r} displayed for {want!r}: ' + ', '.join(fails), case, impl=text, case=case)
@@ -653,6 +653,25 @@ def _tie(drv, s: complex, w, opts):
 
 # --------------------------------------------------------------------------- agreement between annotation kinds
 
+def label_under_open_finding(drv, text: str, unit: str) -> bool:
+    """the text of a label itself falls under an open finding of the number format (a mantissa outside [1, 1000]: the
+    value rounds up to 1 at precision ≥ 4 and is written '0.0010k…', possibly without its sign; or '∞').  A cross-label
+    agreement clause must not judge *another* label from such a text."""
+    body = text[:-1] if text[-1:] in ('↓', '↑') else text
+    pieces = []
+    head = body.split('·')[0].split('∠')[0]
+    if 'j' in head or (len(head) > 1 and ('+' in head[1:] or '-' in head[1:].replace('e-', 'e'))):
+        r = drv.call('fmt_spec_complex', re='1', im='1', precision=1, min_exp=-6, max_exp=3, unit=unit, s=head)
+        pieces = [r.get('re'), r.get('im')]
+    else:
+        pieces = [drv.call('fmt_parse', unit=unit, s=head)['parsed']]
+    for t in pieces:
+        if t is None: continue
+        if t.get('inf'): return True
+        m = Fraction(t['mant'])
+        if m != 0 and not (1 <= m <= 1000): return True
+    return False
+
 def check_agreement(ctx, out, desc):
     """real / Cartesian / polar / sinusoidal annotations of the same quantity of one schematic"""
     import CircuitCalculator.SimpleCircuit.DiagramSolution as ds
@@ -692,6 +711,8 @@ def check_agreement(ctx, out, desc):
             if 'unreadable' in r['failures'] or r['abs'] is None or r['abs'].get('inf'): return None
             a = 0.0 if r['angle'] is None else float(Fraction(r['angle']))
             return float(Fraction(r['abs']['value'])), (math.radians(a) if r['deg_sign'] else a)
+        if any(label_under_open_finding(drv, tx, unit) for tx in [cart[key], pol[key], pdeg[key], tim[key]] + ([rea[key]] if rea else [])):
+            out.skip('agreement_skipped_label_under_open_finding'); continue
         c = cartesian(cart[key]); pr = polar(pol[key]); pd = polar(pdeg[key])
         amp = num(tim[key].split('·')[0])
         if amp is not None: amp = abs(amp)
@@ -780,6 +801,10 @@ def check_power_agreement(ctx, out, desc):
                 tp = label_text(sol.draw_power(name, reverse=rp))
             except Exception as ex:
                 out.skip(f'draw_failed:{type(ex).__name__}'); continue
+            if label_under_open_finding(drv, tv, 'V') or label_under_open_finding(drv, ti, 'A') or label_under_open_finding(drv, tp, 'W'):
+                # e.g. a current of −1.0 A at precision 4 is written '0.0010kA' (open finding, sign lost): the power label
+                # is not to blame for what that text reads back to
+                out.skip('agreement_skipped_label_under_open_finding'); continue
             if kind == 'complex':
                 V, I, S = _parse_polar_label(drv, tv, 'V'), _parse_polar_label(drv, ti, 'A'), _parse_polar_label(drv, tp, 'W')
                 factor = 1.0
@@ -978,6 +1003,15 @@ def check_declarative(ctx, out, desc, sol_type, params):
                 i = names.index(name)
                 out.evaluations += 1
                 out.count(f'arrow:declarative:{quantity}')
+                # quantities that are numerical noise of the solve (e.g. an AC source evaluated at w = 0) are not judged
+                vs = max([abs(complex(*e['value'])) if isinstance(e['value'], list) else abs(e['value'])
+                          for e in els if e['kind'] in ('V', 'VAC', 'VC', 'I')] + [0.0])
+                zs = [abs(z) for z in (impedance_of(e, sw) for e in els) if z not in (None, 0)]
+                if els[0]['kind'] == 'I': vs = vs * max(zs + [1.0])
+                q_here = (phis[i] - phis[i + 1]) if quantity == 'voltage' else i_loop
+                floor = 1e-9 * vs if quantity == 'voltage' else 1e-9 * vs / max(min(zs + [1.0]), 1e-300)
+                if abs(q_here) <= floor:
+                    out.skip('numerically_zero_quantity'); continue
                 judge_along_arrow(drv, out, lab, quantity, label_text(lab), pts[i], pts[i + 1], phis[i], phis[i + 1], i_loop,
                                   spec_kind, sopts, sw,
                                   dict(element='source' if i == 0 else 'passive', element_reversed=bool(els[i].get('reverse', False)),
